@@ -65,6 +65,13 @@ def fixed_configs(tier, seed, keras3=False):
   rnd.shuffle(out)
   if keras3:
     out = out[::6]
+  # every 4th configuration is also reached by re-assigning attributes of a live object (vf.qenv.build)
+  extra = []
+  for c in out[::4]:
+    if c["cls"] in ("quantized_bits", "quantized_linear", "quantized_relu") and "use_sigmoid" not in c["kw"]:
+      extra.append(dict(c, kw=dict(c["kw"]), route="mutate"))
+  out = out + extra
+  rnd.shuffle(out)
   for i, c in enumerate(out):
     c["idx"] = i
     c["seed"] = seed
